@@ -65,6 +65,9 @@ func runBubble(t *testing.T, tier string, tape *sim.Tape, keepAll bool, fn func(
 	}()
 	if w != nil {
 		res.Violation = w.viol
+		if res.Violation == nil {
+			res.Violation = w.known
+		}
 		res.Stats = w.Stats
 		res.Fingerprint = w.Log.Fingerprint()
 		res.DistinctKey = res.Fingerprint
